@@ -6,6 +6,7 @@ import (
 	"context"
 	"encoding/binary"
 	"fmt"
+	"net"
 	"regexp"
 	"sort"
 	"strings"
@@ -119,6 +120,15 @@ type c13Opt struct {
 	secondStart  bool  // S3
 	secondShutdown bool
 	fireDeadline   bool // S4: an environment thread lets one pending read deadline expire at any point
+	badReader      bool // S5: DecorateReader returns a Reader without ReadPacketConn: the serve call fails at once
+}
+
+// plainReader hides the PacketConnReader half of the default reader.
+type plainReader struct{ r dns.Reader }
+
+func (p plainReader) ReadTCP(c net.Conn, t time.Duration) ([]byte, error) { return p.r.ReadTCP(c, t) }
+func (p plainReader) ReadUDP(c *net.UDPConn, t time.Duration) ([]byte, *dns.SessionUDP, error) {
+	return p.r.ReadUDP(c, t)
 }
 
 func c13Scenario(name string, o c13Opt) *e2x.Scenario {
@@ -167,6 +177,9 @@ func c13Scenario(name string, o c13Opt) *e2x.Scenario {
 				srv.PacketConn = pc
 			}
 			srv.NotifyStartedFunc = func() { vsched.Point("notify-started", nil); started = true; vsched.Logf("started") }
+			if o.badReader {
+				srv.DecorateReader = func(r dns.Reader) dns.Reader { return plainReader{r} }
+			}
 			srv.Handler = dns.HandlerFunc(func(w dns.ResponseWriter, q *dns.Msg) {
 				vsched.Logf("enter %d", q.Id)
 				if o.blockHandler {
@@ -226,7 +239,12 @@ func c13Scenario(name string, o c13Opt) *e2x.Scenario {
 				*err = call()
 				if *err != nil && strings.Contains((*err).Error(), "not started") {
 					vsched.Logf("%s-early-error", tag)
-					if !o.secondShutdown || tag == "shutdown" {
+					if o.badReader {
+						// the serve call fails; nothing to wait for but its return, then one more Shutdown: it may
+						// succeed or refuse, it may not block
+						vsched.Point("await-serve-return", func() bool { return serveRet })
+						*err = call()
+					} else if !o.secondShutdown || tag == "shutdown" {
 						// close the scenario: try again once the server runs
 						vsched.Point("await-started", func() bool { return started })
 						*err = call()
@@ -321,6 +339,10 @@ func c13Scenario(name string, o c13Opt) *e2x.Scenario {
 				okShut := has(log, "shutdown-returned <nil>") || has(log, "shutdown2-returned <nil>") || has(log, "shutdown-returned context canceled") || has(log, "shutdown2-returned context canceled")
 				if !serveRet {
 					v["serve-did-not-return"] = "ActivateAndServe has not returned at the end of the execution"
+				} else if o.badReader {
+					if serveErr == nil {
+						v["serve-returned-nil-without-serving"] = "ActivateAndServe returned nil although the decorated Reader cannot read from a PacketConn"
+					}
 				} else if okShut && serveErr != nil && !o.secondStart {
 					v["serve-returned-error"] = fmt.Sprintf("ActivateAndServe returned %v after a shutdown", serveErr)
 				}
@@ -377,6 +399,9 @@ func c13Spaces(c *fw.Ctx) {
 		{"S4/tcp/silent-client+read-timeout", c13Opt{transport: "tcp", clients: []string{"silent"}, fireDeadline: true}, 1, 2},
 		{"S4/tcp/1-client+idle-timeout", c13Opt{transport: "tcp", clients: []string{"full"}, fireDeadline: true}, 1, 2},
 		{"S4/pc/1-client+read-timeout", c13Opt{transport: "pc", clients: []string{"full"}, fireDeadline: true}, 1, 2},
+		{"S5/pc/reader-without-ReadPacketConn", c13Opt{transport: "pc", badReader: true}, 100, 100},
+		{"S3/tcp/silent-client+second-start", c13Opt{transport: "tcp", clients: []string{"silent"}, secondStart: true}, 1, 2},
+		{"S3/pc/1-client+second-start", c13Opt{transport: "pc", clients: []string{"full"}, secondStart: true}, 1, 2},
 		{"S3/tcp/double-start-double-shutdown", c13Opt{transport: "tcp", secondStart: true, secondShutdown: true}, 2, 3},
 		{"S3/pc/double-start-double-shutdown", c13Opt{transport: "pc", secondStart: true, secondShutdown: true}, 1, 2},
 	}
